@@ -27,18 +27,31 @@ structure Script where
   table : List (Bytes × Bool)
   dflt : Bool
   verr : Bool
+  self : List (Bytes × Bool) := []   -- pseudo-ID version: names whose own key validly signed the event
+
+def parseTable (t : String) : Option (List (Bytes × Bool)) :=
+  if t == "-" || t == "" then some [] else
+  (t.splitOn ",").mapM (fun e =>
+    match e.splitOn "=" with
+    | [h, b] => (unhex h).map (fun x => (x, b == "1"))
+    | _ => none)
 
 def parseScript (s : String) : Option Script :=
   match s.splitOn ";" with
-  | [t, d, v] =>
-    let entries : Option (List (Bytes × Bool)) :=
-      if t == "-" || t == "" then some [] else
-      (t.splitOn ",").mapM (fun e =>
-        match e.splitOn "=" with
-        | [h, b] => (unhex h).map (fun x => (x, b == "1"))
-        | _ => none)
-    entries.map (fun es => ⟨es, d == "1", v == "1"⟩)
+  | [t, d, v] => (parseTable t).map (fun es => ⟨es, d == "1", v == "1", []⟩)
+  | [t, d, v, sf] =>
+    match parseTable t, parseTable sf with
+    | some es, some ss => some ⟨es, d == "1", v == "1", ss⟩
+    | _, _ => none
   | _ => none
+
+def Script.selfValid (sc : Script) (name : Bytes) : Bool :=
+  match sc.self.find? (fun e => e.1 == name) with
+  | some e => e.2
+  | none => false
+
+/-- server part of a user ID (specification side of the pseudo-ID clause) -/
+def userServer (u : Bytes) : Option Bytes := Spec.serverOf 0x40 u
 
 def Script.valid (sc : Script) (server : Bytes) : Bool :=
   match sc.table.find? (fun e => e.1 == server) with
@@ -69,7 +82,29 @@ def handle (op : String) (args : Array String) : Option String :=
     let v := strBytes ver
     match versionRow? v, parseEvArg v ev, parseScript script with
     | some row, some e, some sc =>
-      if v == pseudoIDVersion then some "skip:pseudo-id room version (sender-key self-verification and mxid_mapping not modelled)"
+      if v == pseudoIDVersion then
+        let r := verifyPseudo row e (fun q => sc.valid q.server) sc.verr sc.selfValid
+        if opn == "verify" then
+          let m := match r.verdict with
+            | .ok _ => "ok"
+            | .error (.panic s) => "panic:" ++ s
+            | .error _ => "rej"
+          -- the property's clause "the sender's server validly signed": in a pseudo-ID room the server that
+          -- vouches for the sender is the server of mxid_mapping.user_id, over the mapping of a join
+          let s := match membership e, getMXIDMapping e with
+            | .ok mem, .ok mp =>
+              if e.type == b!"m.room.member" && mem == b!"join" then
+                match userServer mp.userID with
+                | some srv => if mp.servers.contains srv && sc.valid srv && !sc.verr then "unspecified:pseudo-id" else "rej"
+                | none => "rej"
+              else "unspecified:pseudo-id"
+            | _, _ => "unspecified:pseudo-id"
+          some (m ++ "\t" ++ s)
+        else
+          some (match r.asked with
+            | none => "none"
+            | some l => if l.isEmpty then "-" else
+              "asked:" ++ String.intercalate "," (sortDedup (l.map (fun x => hex x ++ "@" ++ toString e.originServerTS ++ "/" ++ (if strictValidity row then "s1" else "s0") ++ "/r0"))))
       else match senderDomain e with
       | none => some "skip:sender domain is an IPv6 literal (server-name validation: C17)"
       | some sd =>
